@@ -36,6 +36,9 @@ struct MockT
   MAKE_MOCK1(nest, int(int));
   MAKE_MOCK1(thr, int(int));
   MAKE_MOCK2(bin, int(std::string const&, int));
+  MAKE_MOCK1(nsp, std::shared_ptr<int>(int));
+  MAKE_MOCK1(ncs, char const*(int));
+  MAKE_MOCK1(nup, std::unique_ptr<int>(int));
 };
 std::unique_ptr<Rec> g_inner;
 }
@@ -107,6 +110,40 @@ static void test_0()
       }
     }
     {
+      // a plain RETURN of a captured class-type local, from a function returning a reference: the reference is to the
+      // expectation's own copy, the same object on every call, alive as long as the expectation; a plain RETURN cannot
+      // move from its copy either (it is const), so every call yields the creation-time value
+      std::string loc = "captured-" + a + "-long-enough-to-leave-the-small-buffer";
+      int ln1, ln2;
+      auto e1 = NAMED_ALLOW_CALL(m, sr(trompeloeil::_)).RETURN(loc); ln1 = __LINE__;
+      auto e2 = NAMED_ALLOW_CALL(m, s1(trompeloeil::_)).RETURN(std::move(loc) + "!"); ln2 = __LINE__;
+      std::string want = loc;
+      loc = "changed";
+      G::out("L srk %d", ln1);
+      std::string const& r1 = m.sr(a); std::string const* p1 = &r1; std::string v1 = r1;
+      G::out("V %d", v1 == want ? 1 : 0);
+      G::out("L srk2 %d", ln1);
+      std::string const& r2 = m.sr(a);
+      G::out("V %d %d %d", &r2 == p1 ? 1 : 0, r2 == want ? 1 : 0, *p1 == want ? 1 : 0);
+      G::out("L mv1 %d", ln2);
+      G::out("V %d", m.s1(a) == want + "!" ? 1 : 0);
+      G::out("L mv2 %d", ln2);
+      G::out("V %d", m.s1(a) == want + "!" ? 1 : 0);
+    }
+    {
+      // typed null results: the record says nullptr (and nothing is dereferenced)
+      REQUIRE_CALL(m, nsp(trompeloeil::_)).RETURN(std::shared_ptr<int>());                      G::out("L nsp %d", __LINE__);
+      G::out("V %d", m.nsp(round) ? 1 : 0);
+    }
+    {
+      REQUIRE_CALL(m, ncs(trompeloeil::_)).RETURN(static_cast<char const*>(nullptr));           G::out("L ncs %d", __LINE__);
+      G::out("V %d", m.ncs(round) ? 1 : 0);
+    }
+    {
+      REQUIRE_CALL(m, nup(trompeloeil::_)).RETURN(std::unique_ptr<int>());                      G::out("L nup %d", __LINE__);
+      G::out("V %d", m.nup(round) ? 1 : 0);
+    }
+    {
       // an argument with an embedded NUL: what follows it (the rest of the value, the other arguments, the result) is part of the record
       REQUIRE_CALL(m, bin(trompeloeil::_, trompeloeil::_)).RETURN(_2 + 1);                      G::out("L bin %d", __LINE__);
       std::string z = a; z.push_back(char(0)); z += "tail";
@@ -128,7 +165,7 @@ static G::Reg reg_0(0, &test_0);
 
 
 FUNC = {'s1a': 's1', 's1m': 's1', 's1l': 's1', 'sc': 'sc', 'sck': 'sc', 'sr': 'sr', 'vec': 'vec', 'pr': 'pr', 'vv': 'vv',
-        'nest': 'nest', 'nest2': 'nest', 'nest3': 'nest', 'thr': 'thr', 'bin': 'bin'}
+        'nest': 'nest', 'nest2': 'nest', 'nest3': 'nest', 'thr': 'thr', 'bin': 'bin', 'nsp': 'nsp', 'ncs': 'ncs', 'nup': 'nup', 'srk': 'sr', 'srk2': 'sr', 'mv1': 's1', 'mv2': 's1'}
 
 
 def _vecs(xs):
@@ -150,6 +187,13 @@ def expected_calls():
         c.append(('vec', 1, [str(rnd)], '-> ' + _vecs([str(rnd)] * rnd), 'V %d' % rnd))
         c.append(('pr', 1, [str(rnd), a], '-> ' + _vecs([str(rnd + 1), a + '!']), 'V %d %s!' % (rnd + 1, a)))
         c.append(('vv', 1, [_vecs([a, '', 'z z'])], '-> ' + _vecs([a, '', 'z z']), 'V 3 %s' % a))
+        cap = 'captured-%s-long-enough-to-leave-the-small-buffer' % a
+        c.append(('srk', 1, [a], '-> ' + cap, 'V 1'))
+        c.append(('srk2', 1, [a], '-> ' + cap, 'V 1 1 1'))
+        c.append(('mv1', 1, [a], '-> ' + cap + '!', 'V 1'))
+        c.append(('mv2', 1, [a], '-> ' + cap + '!', 'V 1'))
+        for lab in ('nsp', 'ncs', 'nup'):
+            c.append((lab, 1, [str(rnd)], '-> nullptr', 'V 0'))
         c.append(('bin', 1, [a + '\x00tail', str(40 + rnd)], '-> %d' % (41 + rnd), 'V %d' % (41 + rnd)))
         c.append(('nest', (1, 2), [str(rnd + 5)], '-> %d' % ((rnd + 5) * 2), 'V %d' % ((rnd + 5) * 2)))
         c.append(('nest2', 2, [str(rnd)], '-> %d' % (rnd * 3), 'V %d' % (rnd * 3)))
